@@ -40,6 +40,7 @@ type HdrSpec struct {
 	ExtraLen int    `json:"extra_len"`
 	Mix      string `json:"mix"`   // hex
 	Uncle    string `json:"uncle"` // hex
+	Root     string `json:"root,omitempty"` // hex of the state root; "" = 32 bytes 0x03, "empty" = no bytes
 	Diff     string `json:"diff"`  // hex, big endian
 	BloomLen int    `json:"bloom_len"`
 	NonceLen int    `json:"nonce_len"` // bsc
@@ -72,6 +73,7 @@ type CSSpec struct {
 type ConsSpec struct {
 	Kind string `json:"kind"` // tm | bsc | eth | tss | nil | emptyurl | wrong
 	Ts   uint64 `json:"ts"`   // bsc / eth timestamp; tm: unix seconds
+	Root string `json:"root,omitempty"` // bsc / eth: hex of the root; "" = 32 bytes 0x03, "empty" = no bytes
 }
 
 type XStep struct {
@@ -123,6 +125,17 @@ func unhex(s string) []byte {
 
 func hx(s string) string { return hex.EncodeToString([]byte(s)) }
 
+// rootBytes: the convention of the Root fields of HdrSpec / ConsSpec
+func rootBytes(s string) []byte {
+	switch s {
+	case "":
+		return bytes.Repeat([]byte{3}, 32)
+	case "empty":
+		return []byte{}
+	}
+	return unhex(s)
+}
+
 var sealKey, _ = crypto.ToECDSA(crypto.Keccak256([]byte("verif-c15-sealer")))
 
 var uncleHash = ethtypes.CalcUncleHash(nil)
@@ -133,7 +146,7 @@ func buildBscHeader(h *HdrSpec, chainNum uint64) bsctypes.Header {
 		ParentHash:  bytes.Repeat([]byte{1}, 32),
 		UncleHash:   unhex(h.Uncle),
 		Coinbase:    bytes.Repeat([]byte{2}, 20),
-		Root:        bytes.Repeat([]byte{3}, 32),
+		Root:        rootBytes(h.Root),
 		TxHash:      bytes.Repeat([]byte{4}, 32),
 		ReceiptHash: bytes.Repeat([]byte{5}, 32),
 		Bloom:       bytes.Repeat([]byte{6}, h.BloomLen),
@@ -169,7 +182,7 @@ func buildEthHeader(h *HdrSpec) ethclient.Header {
 		ParentHash:  bytes.Repeat([]byte{1}, 32),
 		UncleHash:   unhex(h.Uncle),
 		Coinbase:    bytes.Repeat([]byte{2}, 20),
-		Root:        bytes.Repeat([]byte{3}, 32),
+		Root:        rootBytes(h.Root),
 		TxHash:      bytes.Repeat([]byte{4}, 32),
 		ReceiptHash: bytes.Repeat([]byte{5}, 32),
 		Bloom:       bytes.Repeat([]byte{6}, h.BloomLen),
@@ -268,9 +281,9 @@ func buildCons(s *ConsSpec) *codectypes.Any {
 		return mustAny(&tmclient.ConsensusState{Timestamp: time.Unix(int64(s.Ts%(1<<33)), 0).UTC(), Root: []byte("root"),
 			NextValidatorsHash: bytes.Repeat([]byte{7}, 32)})
 	case "bsc":
-		return mustAny(&bsctypes.ConsensusState{Timestamp: s.Ts, Height: clienttypes.NewHeight(0, 1), Root: bytes.Repeat([]byte{3}, 32)})
+		return mustAny(&bsctypes.ConsensusState{Timestamp: s.Ts, Height: clienttypes.NewHeight(0, 1), Root: rootBytes(s.Root)})
 	case "eth":
-		return mustAny(&ethclient.ConsensusState{Timestamp: s.Ts, Height: clienttypes.NewHeight(0, 1), Root: bytes.Repeat([]byte{3}, 32)})
+		return mustAny(&ethclient.ConsensusState{Timestamp: s.Ts, Height: clienttypes.NewHeight(0, 1), Root: rootBytes(s.Root)})
 	case "tss":
 		return mustAny(&tsstypes.ConsensusState{})
 	}
